@@ -17,7 +17,7 @@ from mc import enumx
 
 ID = "C13"
 LEVEL = "exploration"
-RULE = ("all ordered pairs of all strings of length <= L over the alphabet {0,1,9,a,B,.,e-acute,~,^} "
+RULE = ("all ordered pairs of all strings of length <= L over the alphabet {0,1,9,a,B,.,:,e-acute,~,^} "
         "(vercmp), all pairs over epoch x version x release universes (EVR and InstalledRpm operators), "
         "all lists of <= 3 packages (newest/oldest); a case is non-trivial when the two operands differ "
         "and share their first character (the decision is not made on the first character)")
@@ -25,7 +25,7 @@ ASSUMPTIONS = ["ref/rpmvercmp.c is a faithful transcription of upstream rpmvercm
                "against the official rpmvercmp.at rows on every run",
                "bounded: no counterexample with <= L symbols over the stated alphabet, nothing more"]
 
-SIGMA = ["0", "1", "9", "a", "B", ".", "é", "~", "^"]
+SIGMA = ["0", "1", "9", "a", "B", ".", ":", "é", "~", "^"]   # two ASCII separators: one of "._+-" and one outside that set
 BOUNDS = {"quick": {"max_len": 3, "evr_versions": 12, "list_len": 3},
           "thorough": {"max_len": 4, "plus_len5_over": "0 1 a . ~ ^", "evr_versions": 43, "list_len": 3}}
 CAP_S = {"quick": 300, "thorough": 2400}
